@@ -111,6 +111,8 @@ pub enum Op {
     /// Arm the destructor of whatever container c stores right now (it panics when the last
     /// count goes, wherever that happens).
     ArmStored { c: u8 },
+    /// The k-th projection (Map / MapCache closure) that runs on this thread from now on panics.
+    ArmProjPanic { k: u8 },
     Spawn { t: u8 },
     Join { t: u8 },
     /// Register a thread-local whose destructor performs `ops` at thread exit.
